@@ -10,6 +10,7 @@ import itertools
 import re
 
 from .. import api, engine
+from .. import histories as H
 
 ID = "C13"
 LEVEL = "exploration"
@@ -215,6 +216,7 @@ def plan(tier):
     shards += [{"family": "magnitudes", "part": p, "parts": 16} for p in range(16)]
     if tier != "quick":
         shards += [{"family": "mutations2", "part": p, "parts": 128} for p in range(128)]
+    shards += H.plan_shards(['faults'])
     return shards
 
 
@@ -240,6 +242,9 @@ def mutations(seed):
 
 
 def cases(shard, tier):
+    if shard.get("kind") == "call-histories":
+        yield from H.cases_of(shard)
+        return
     fam = shard["family"]
     if fam == "tokens":
         for i, s in enumerate(token_strings(shard["n"])):
@@ -331,6 +336,8 @@ def verdict(o: api.Obs, R, case, offending: str | None):
 
 
 def check_case(case, R: engine.Acc):
+    if case.get("kind") == "call-history":
+        return H.check_history(case["label"], R, H.project_error_location, 'error-depends-on-earlier-calls', 'the error is an InvalidDefinitionError whose path names the offending file of THIS call')
     if case["kind"] == "text" and case.get("where") == "dependency":
         files = {"lk/" + k.split("/", 1)[1]: v for k, v in DEP.items()}
         files["lk/Bad.1.0.dsdl"] = case["text"].encode("utf-8")
